@@ -142,6 +142,23 @@ def enumerate_cases(tier):
                 flat = ["NaN" if np.isnan(x) else float(x) for x in arr.ravel().tolist()]
                 yield "dropna-threshold-grid", {"op": "dropna", "spec": {"dims": dims, "labels": labels, "vk": "f", "vals": flat}, "ax": dims.index("t"),
                                                 "axis_form": "name", "p": {}}
+    # dropna along an INTERIOR dimension of 3- and 4-dimensional arrays (the other dimensions before and after it are longer than 1)
+    for sh, ax in (((2, 3, 2), 1), ((3, 4, 2), 1), ((2, 3, 2, 2), 1), ((2, 2, 3, 2), 2), ((2, 2, 2, 3), 2)):
+        for pat in range(4):
+            n = int(np.prod(sh))
+            idx = np.arange(n).reshape(sh)
+            vals = [float(k + 1) for k in range(n)]
+            # NaNs concentrated in some labels of the interior dimension, at positions that a scrambled layout would attribute to other labels
+            for j in range(sh[ax]):
+                if (j + pat) % 3 == 0:
+                    sl = [slice(None)] * len(sh)
+                    sl[ax] = j
+                    cells = np.atleast_1d(idx[tuple(sl)]).ravel().tolist()
+                    for c_ in cells[:max(1, (len(cells) * (pat + 1)) // 4)]:
+                        vals[c_] = "NaN"
+            dims = ["x", "t", "y", "z"][:len(sh)] if ax == 1 else ["x", "y", "t", "z"][:len(sh)]
+            labels = [list(range(n_))[::-1] for n_ in sh]
+            yield "dropna-interior-axis", {"op": "dropna", "spec": {"dims": dims, "labels": labels, "vk": "f", "vals": vals}, "ax": ax, "axis_form": "name", "p": {}}
     for x in _range_perm_cases():
         yield x
 
